@@ -65,6 +65,7 @@ ODP_FEATURES = {
     "text-outside-frame": "text in draw:custom-shape instead of draw:frame (twin: draw:frame text box)",
     "two-line-title": "a title text box with two paragraphs in the title style (twin: second paragraph in the body style)",
     "linked-image": "a picture frame linking ../Pictures/x outside the package while Pictures/x is an embedded part (twin: no such frame)",
+    "shared-picture": "one package picture (a logo) placed by a frame on every slide (twin: a copy of the picture per slide, under its own name)",
 }
 ODS_FEATURES = {
     "no-meta": "package without the optional meta.xml (twin: present)",
@@ -333,10 +334,13 @@ def build_odp(seed: int, feature: str | None = None, twin: bool = False):
     pages = []
     feature_slide = rng.randrange(n_slides)
     n_img = 0
+    logo = None
+    if feature == "shared-picture":
+        n_slides = max(2, n_slides)
     for s in range(n_slides):
         frames = []
         y = 1.0
-        empty = rng.random() < 0.12 and n_slides > 1 and s != feature_slide
+        empty = rng.random() < 0.12 and n_slides > 1 and s != feature_slide and feature != "shared-picture"
         if feature == "notes-only-slide" and s == feature_slide:
             empty = True
 
@@ -405,6 +409,18 @@ def build_odp(seed: int, feature: str | None = None, twin: bool = False):
             inner = sorted(k for k in files if k.startswith("Pictures/"))[0]
             if not twin:
                 frames.append(f'<draw:frame draw:name="Linked" svg:x="5cm" svg:y="15cm" svg:width="2cm" svg:height="2cm"><draw:image xlink:href="../{inner}" xlink:type="simple"/></draw:frame>')
+        if feature == "shared-picture":
+            n_img += 1
+            y += 2
+            if logo is None:
+                fx, logo = _frame_image(rng, files, exp, n_img, s + 1, x="12cm", y=f"{y}cm")
+            elif twin:
+                copy = dict(logo)
+                copy.pop("name", None)
+                fx, _ = _frame_image(rng, files, exp, n_img, s + 1, x="12cm", y=f"{y}cm", reuse=dict(copy, name=f"Pictures/logo-copy{n_img}{logo['ext']}"))
+            else:
+                fx, _ = _frame_image(rng, files, exp, n_img, s + 1, x="12cm", y=f"{y}cm", reuse=logo)
+            frames.append(fx)
         if feature == "text-outside-frame" and s == feature_slide:
             t = " ".join(w("x", 1, 2))
             if twin:
